@@ -783,6 +783,49 @@ func (c *Cluster) Round(a, b string, pktMax int) *Step {
 	return s
 }
 
+// GossipRound runs the code's own periodic round on a (gossipRound: one random live peer and one random
+// unreachable peer) and reports whom it addressed; the datagrams are dropped (what a digest request does is
+// StartRound's business).
+func (c *Cluster) GossipRound(a string) *Step {
+	x := c.live(a)
+	if x == nil {
+		return nil
+	}
+	c.outbox = nil
+	s := &Step{Op: "GossipRound", A: a}
+	if err := x.G.GossipRound(); err != nil {
+		s.Err = err.Error()
+	}
+	for _, p := range c.outbox {
+		s.Fseq = append(s.Fseq, c.idOf[p.toAddr])
+	}
+	c.outbox = nil
+	c.Finish(s, false)
+	return s
+}
+
+// SelectionStats: rounds periodic rounds of a; the last step lists every peer that was addressed at least once.
+func (c *Cluster) SelectionStats(a string, rounds int, emit func(*Step)) {
+	if c.live(a) == nil {
+		return
+	}
+	chosen := map[string]bool{}
+	for i := 0; i < rounds; i++ {
+		s := c.GossipRound(a)
+		for _, t := range s.Fseq {
+			chosen[t] = true
+		}
+		emit(s)
+	}
+	s := &Step{Op: "SelectionEnd", A: a, Kx: rounds}
+	for t := range chosen {
+		s.Fseq = append(s.Fseq, t)
+	}
+	sort.Strings(s.Fseq)
+	c.Finish(s, false)
+	emit(s)
+}
+
 // RecvDigest delivers the digest datagram in slot. cut < 0 means no
 // truncation; otherwise the responder's maximum packet size is chosen so that
 // exactly min(cut, len) elements of its delta fit. pktMax > 0 overrides.
@@ -1032,6 +1075,10 @@ func rawCmd(s *Step) string {
 		c = []interface{}{"RemoveExpired", s.A, s.Kx}
 	case "Crash":
 		c = []interface{}{"Crash", s.N}
+	case "GossipRound":
+		c = []interface{}{"GossipRound", s.A}
+	case "SelectionEnd":
+		c = []interface{}{"SelectionStats", s.A, s.Kx}
 	default:
 		c = []interface{}{s.Op}
 	}
